@@ -20,6 +20,7 @@ import (
 	"github.com/btcsuite/btcd/wire/v2"
 	"github.com/lightninglabs/neutrino/blockntfns"
 	"github.com/lightninglabs/neutrino/internal/verifbubble"
+	"github.com/lightninglabs/neutrino/internal/verifdetrt"
 	"github.com/lightninglabs/neutrino/internal/verifeng"
 	"github.com/lightninglabs/neutrino/pushtx"
 )
@@ -107,7 +108,7 @@ func isAncestor(a, b int) bool {
 	return b == a+1 && b <= 2
 }
 
-func c15Body(t *testing.T, depth, ntx int, bursts bool) func(c *verifeng.Chooser) {
+func c15Body(t *testing.T, depth, ntx int, bursts int) func(c *verifeng.Chooser) {
 	return func(c *verifeng.Chooser) {
 		out := verifbubble.Run(t, func() { c15Run(c, depth, ntx, bursts) })
 		switch {
@@ -126,7 +127,9 @@ func c15Body(t *testing.T, depth, ntx int, bursts bool) func(c *verifeng.Chooser
 	}
 }
 
-func c15Run(c *verifeng.Chooser, depth, ntx int, bursts bool) {
+// bursts: 0 none; 1 one scheduler/select deviation per execution; 2 one
+// preemption at a synchronisation point per execution, API calls paired with Stop
+func c15Run(c *verifeng.Chooser, depth, ntx int, bursts int) {
 	h := &c15h{c: c, txs: c15Txs()[:ntx], byHash: map[chainhash.Hash]int{}}
 	for i, tx := range h.txs {
 		h.byHash[tx.TxHash()] = i
@@ -164,8 +167,12 @@ func c15Run(c *verifeng.Chooser, depth, ntx int, bursts bool) {
 	var remaining []int // txs the running round still has to send
 	var optional []int  // txs the running round may or may not send
 	var burst *verifbubble.Burst
-	if bursts {
+	if bursts > 0 {
 		burst = verifbubble.NewBurst(c)
+	}
+	if bursts == 2 && burst != nil {
+		burst.NoSched, burst.NoSelect = true, true
+		burst.Sync = verifdetrt.SyncMutex | verifdetrt.SyncSpawn | verifdetrt.SyncChan
 	}
 	var roundCB *parked
 	stopped := false
@@ -458,6 +465,63 @@ func c15Run(c *verifeng.Chooser, depth, ntx int, bursts bool) {
 				tasks = append(tasks, tk)
 			}})
 		}
+		if bursts == 2 && !stopped && handlerBusy == nil && queued == "" {
+			// an API call and Stop by two callers in one step, in both
+			// launch orders (the goroutine launched last runs first);
+			// whatever the call returns, nobody may stay blocked
+			stopNow := func() {
+				stopped = true
+				stopTask = verifbubble.Go("Stop", func() (any, error) { b.Stop(); return nil, nil })
+				tasks = append(tasks, stopTask)
+			}
+			for _, stopFirst := range []bool{true, false} {
+				stopFirst := stopFirst
+				order := "Stop running first"
+				if !stopFirst {
+					order = "the call running first"
+				}
+				i := len(h.txs) - 1
+				if asked[i] < 1 {
+					menu = append(menu, ev{"Broadcast(" + c15Names[i] + ") and Stop at once, " + order, func() {
+						asked[i]++
+						call := func() {
+							tasks = append(tasks, verifbubble.Go("Broadcast("+c15Names[i]+")", func() (any, error) {
+								return nil, b.Broadcast(h.txs[i])
+							}))
+						}
+						if stopFirst {
+							call()
+							stopNow()
+						} else {
+							stopNow()
+							call()
+						}
+					}})
+				}
+				for j := range h.txs {
+					j := j
+					if !pending[j] {
+						continue
+					}
+					menu = append(menu, ev{"MarkAsConfirmed(" + c15Names[j] + ") and Stop at once, " + order, func() {
+						call := func() {
+							tasks = append(tasks, verifbubble.Go("MarkAsConfirmed("+c15Names[j]+")", func() (any, error) {
+								b.MarkAsConfirmed(h.txs[j].TxHash())
+								return nil, nil
+							}))
+						}
+						if stopFirst {
+							call()
+							stopNow()
+						} else {
+							stopNow()
+							call()
+						}
+					}})
+					break
+				}
+			}
+		}
 		if !stopped {
 			menu = append(menu, ev{"Stop", func() {
 				stopped = true
@@ -578,7 +642,7 @@ func TestVFXC15(t *testing.T) {
 		}
 		fmt.Sscanf(v.Config, "depth=%d txs=%d", &depth, &ntx)
 		e := verifeng.FromEnv(v.Harness, v.Config)
-		_, x, err := e.ReplayFile(rp, c15Body(t, depth, ntx, strings.Contains(v.Config, "in-burst")))
+		_, x, err := e.ReplayFile(rp, c15Body(t, depth, ntx, map[bool]int{true: 1}[strings.Contains(v.Config, "in-burst")]+map[bool]int{true: 2}[strings.Contains(v.Config, "preemption")]))
 		if err != nil {
 			t.Fatal(err)
 		}
@@ -593,7 +657,7 @@ func TestVFXC15(t *testing.T) {
 		return
 	}
 	e := verifeng.FromEnv("C15-broadcaster", fmt.Sprintf("depth=%d txs=%d", depth, ntx))
-	e.Run(c15Body(t, depth, ntx, false))
+	e.Run(c15Body(t, depth, ntx, 0))
 	if err := verifeng.AppendResult(&e.Res); err != nil {
 		t.Fatal(err)
 	}
@@ -603,7 +667,15 @@ func TestVFXC15(t *testing.T) {
 	bd := depth - 2
 	e = verifeng.FromEnv("C15-broadcaster", fmt.Sprintf("depth=%d txs=%d in-burst deviations<=1", bd, 2))
 	e.MaxDev = 1
-	e.Run(c15Body(t, bd, 2, true))
+	e.Run(c15Body(t, bd, 2, 1))
+	if err := verifeng.AppendResult(&e.Res); err != nil {
+		t.Fatal(err)
+	}
+	// API calls paired with Stop, one preemption at a synchronisation point
+	// (DESIGN 3.9)
+	e = verifeng.FromEnv("C15-broadcaster", fmt.Sprintf("depth=%d txs=%d preemption at a synchronisation point<=1", bd, 2))
+	e.MaxDev = 1
+	e.Run(c15Body(t, bd, 2, 2))
 	if err := verifeng.AppendResult(&e.Res); err != nil {
 		t.Fatal(err)
 	}
